@@ -23,6 +23,8 @@ PATTERNS = [
     (r'\d{2}:\d{2}', 'time'), (r'\d', 'd1'),
     (r'^\d+$', 'd+'), (r'^[0-9a-f]{4}$', 'hex4'),
     (r'^\d+', 'd+'), (r'\d+$', 'd+'), (r'(\d+)-(\d+)', 'range'),
+    # a bare top-level alternation: the expression as a whole is the pattern
+    (r'\d+|N/A', 'd+'), (r'\d{3}|[0-9a-f]{4}', 'd3'),
 ]
 PATTERN_TEXTS = [p for (p, _) in PATTERNS]
 SHAPE_OF = dict(PATTERNS)
@@ -100,12 +102,14 @@ def preprocess_fn(name):
 
 
 PATTERNS_FOR_SHAPE = {
-    'd3': [r'\d{3}', r'\d+', r'[0-9a-f]+'],
-    'd1': [r'\d', r'\d+'],
-    'd+': [r'\d+', r'[0-9a-f]+', r'\d+$', r'^\d+'],
+    'd3': [r'\d{3}', r'\d+', r'[0-9a-f]+', r'\d+|N/A',
+           r'\d{3}|[0-9a-f]{4}'],
+    'd1': [r'\d', r'\d+', r'\d+|N/A'],
+    'd+': [r'\d+', r'[0-9a-f]+', r'\d+$', r'^\d+', r'\d+|N/A'],
     'dec': [r'\d+\.\d+', r'\d+'],
     'hex2': [r'[0-9a-f]{2}', r'[0-9a-f]+'],
-    'hex4': [r'[0-9a-f]+', r'^[0-9a-f]{4}$', r'[0-9a-f]{2}'],
+    'hex4': [r'[0-9a-f]+', r'^[0-9a-f]{4}$', r'[0-9a-f]{2}',
+             r'\d{3}|[0-9a-f]{4}'],
     'hex+': [r'[0-9a-f]+'],
     'time': [r'\d{2}:\d{2}', r'\d+'],
     'range': [r'(\d+)-(\d+)', r'\d+'],
